@@ -34,6 +34,10 @@ func checkC03(c *Ctx, r *Report) {
 	// when C03 itself is evaluated as a prerequisite of a property that includes C09 directly.
 	if r.Prop == "C03" {
 		includePrereq(c, r, "C03.i", checkC09)
+		// "a conflict warning exactly when the grammar has a conflict that precedence declarations do not resolve":
+		// which conflicts precedence resolves is ResolveConflict's decision table (C04.a) — a pair it wrongly calls
+		// resolved is a warning that is never printed
+		includeClauses(c, r, "C03.f", checkC04, "C04.a")
 	}
 }
 
@@ -169,7 +173,18 @@ func c03g(c *Ctx, r *Report) {
 			continue
 		}
 		rel, seed, out := pc.path(call.Args[1]), pc.path(call.Args[2]), pc.path(call.Args[3])
-		ok := strings.HasSuffix(rel, "."+st.rel+"()") && strings.HasSuffix(seed, st.seed) && out == st.out
+		// the result may be handed over as a map or as a pointer to it; the last stage collects into a local
+		outOK := strings.TrimPrefix(out, "&") == strings.TrimPrefix(st.out, "&")
+		if st.out == "&$Set" {
+			a := unparen(call.Args[3])
+			if u, isU := a.(*ast.UnaryExpr); isU && u.Op == token.AND {
+				a = unparen(u.X)
+			}
+			if v, isV := identObj(info, a).(*types.Var); isV && !v.IsField() && v.Parent() != v.Pkg().Scope() {
+				outOK = true
+			}
+		}
+		ok := strings.HasSuffix(rel, "."+st.rel+"()") && strings.HasSuffix(seed, st.seed) && outOK
 		r.Check(ok, clause, "R1 PROVENANCE", f.Name+"/digraph-stage", c.pos(call.Pos()),
 			fmt.Sprintf("closes %s under %s() into %s", strings.TrimPrefix(st.seed, "."), st.rel, strings.TrimPrefix(st.out, "&$")),
 			fmt.Sprintf("this stage calls Digraph(_, %s, %s, %s); the DeRemer–Pennello pipeline requires the relation %s(), the seed sets %s and the result %s — seeding from another stage's sets loses (or invents) lookaheads for particular grammar shapes only", rel, seed, out, st.rel, st.seed, st.out))
@@ -1071,8 +1086,10 @@ func c03d(c *Ctx, r *Report) {
 		r.Undecided(clause, "R2 SKELETON", f.Name+"/prelude", c.pos(f.Decl.Pos()), "prelude is not straight-line")
 		return
 	}
-	got := strings.Join(storesAndCalls(prePaths[0], "stack).Push"), "; ")
-	want := "call stack).Push; store N[X] = len(*S); store *F[X] = FP[X]"
+	// F may be handed over as a map or as a pointer to one: `(*F)[x]` and `F[x]` are the same cell
+	derefF := func(s string) string { return strings.ReplaceAll(s, "*F[", "F[") }
+	got := derefF(strings.Join(storesAndCalls(prePaths[0], "stack).Push"), "; "))
+	want := "call stack).Push; store N[X] = len(*S); store F[X] = FP[X]"
 	r.Check(got == want, clause, "R2 SKELETON", f.Name+"/prelude", c.pos(f.Decl.Pos()),
 		"push x; N[x] = depth after the push; F[x] = F'[x] — before any edge is followed",
 		"prelude is `"+got+"`, the algorithm requires `"+want+"` (depth recorded after the push, F x initialised from F' x before the edges)")
@@ -1114,9 +1131,9 @@ func c03d(c *Ctx, r *Report) {
 		if hasUnv && unvisited {
 			wantSeq = append(wantSeq, "call LALR.Traverse")
 		}
-		g := strings.Join(eff, "; ")
+		g := derefF(strings.Join(eff, "; "))
 		okN := strings.Contains(g, "store N[X] = LALR.min(N[X], N[E.y])") || strings.Contains(g, "store N[X] = LALR.min(N[E.y], N[X])")
-		okF := strings.Contains(g, "store *F[X] = LALR.Union(*F[E.y], *F[X])") || strings.Contains(g, "store *F[X] = LALR.Union(*F[X], *F[E.y])")
+		okF := strings.Contains(g, "store F[X] = LALR.Union(F[E.y], F[X])") || strings.Contains(g, "store F[X] = LALR.Union(F[X], F[E.y])")
 		okT := (strings.HasPrefix(g, "call LALR.Traverse")) == (hasUnv && unvisited)
 		if !hasUnv {
 			bad = "the recursion is not guarded by N[y] == 0"
@@ -1189,9 +1206,9 @@ func c03d(c *Ctx, r *Report) {
 			} else {
 				sawBreak, sawFall := false, false
 				for _, p := range ip {
-					g := strings.Join(storesAndCalls(p, "stack).Pop"), "; ")
+					g := derefF(strings.Join(storesAndCalls(p, "stack).Pop"), "; "))
 					top := "(*LALR.stack).Pop(*S)"
-					wantStores := "call stack).Pop; store N[" + top + "] = " + maxInt.ExactString() + "; store *F[" + top + "] = *F[X]"
+					wantStores := "call stack).Pop; store N[" + top + "] = " + maxInt.ExactString() + "; store F[" + top + "] = F[X]"
 					if g != wantStores {
 						bad = "a pop iteration does `" + g + "`, required `" + wantStores + "` (every popped node gets N = ∞ and the root's F)"
 					}
@@ -1765,15 +1782,9 @@ func checkFixpoint(c *Ctx, fn *FuncRef, spec fixpointSpec) string {
 		}
 	} else if last, ok := outer.Body.List[len(outer.Body.List)-1].(*ast.IfStmt); ok && last.Else == nil && len(last.Body.List) == 1 {
 		if br, ok := last.Body.List[0].(*ast.BranchStmt); ok && br.Tok == token.BREAK && br.Label == nil {
-			switch cnd := unparen(last.Cond).(type) {
-			case *ast.BinaryExpr:
-				if cnd.Op == token.EQL && identObj(info, cnd.X) == change && isZero(cnd.Y) {
-					exitOK = true
-				}
-			case *ast.UnaryExpr:
-				if cnd.Op == token.NOT && identObj(info, cnd.X) == change {
-					exitOK = true
-				}
+			// `change == 0`, `0 == change`, `!(change != 0)`, `change <= 0`, `!changed`, … : true exactly when nothing changed
+			if trueIffUnchanged(info, last.Cond, change) {
+				exitOK = true
 			}
 		}
 	}
@@ -2186,7 +2197,7 @@ func findFoldLoop(info *types.Info, fd *ast.FuncDecl) (*ast.ForStmt, *ast.CallEx
 				stack = stack[:len(stack)-1]
 				return false
 			case *ast.CallExpr:
-				if fn := callee(info, x); fn != nil && strings.HasSuffix(shortFuncName(fn), "LALR1).ResolveConflict") && len(stack) > 0 {
+				if fn := callee(info, x); fn != nil && fn.Name() == "ResolveConflict" && len(stack) > 0 {
 					fold, rcall = stack[len(stack)-1], x
 				}
 			}
